@@ -108,7 +108,7 @@ def lookupTable (t : List (Nat × List Byte × List Byte)) (id : Nat) (d : List 
 
 /-- The test hook of the harness: `HOOK[` + unsafe error text + safe verb + `]`. -/
 def testHook (ret verb : Nat) : Script :=
-  .safeString "HOOK[".toUTF8.toList (.unsafeLeaf ret (.safeRune (Int.ofNat verb) (.safeString "]".toUTF8.toList .done)))
+  .safeString ([0x48, 0x4F, 0x4F, 0x4B, 0x5B] /- "HOOK[" -/ : List UInt8) (.unsafeLeaf ret (.safeRune (Int.ofNat verb) (.safeString ([0x5D] /- "]" -/ : List UInt8) .done)))
 
 def resStr (r : Res) (withErr : Bool) : String :=
   match r with
